@@ -309,6 +309,8 @@ pub fn frame_stats_vec(s: &quinn_proto::FrameStats) -> [u64; 24] {
 
 impl World {
     pub fn new(ch: Chooser, tap: Tap) -> Self {
+        // every world starts from the same TLS entropy: ciphertext is a function of the world
+        crate::cfgs::seed_tls(1);
         Self {
             ch,
             tap,
@@ -634,92 +636,8 @@ impl World {
                 }
             }
         }
-        // Restore every *structural* header byte (header form and long-header type bits, CID
-        // length bytes, token-length and Length varints of each coalesced long-header packet):
-        // damaging those would move later field boundaries into (randomised) ciphertext, so the
-        // outcome would depend on rustls/ring randomness and the run would not replay. All other
-        // damage (version, CID contents, packet number, payload, tag, truncation, extension) has a
-        // ciphertext-independent effect.
-        {
-            let mut off = 0usize;
-            let n = original.len().min(d.bytes.len());
-            while off < original.len() {
-                let b = &original[off..];
-                if b[0] & 0x80 == 0 {
-                    if off < n {
-                        d.bytes[off] = (d.bytes[off] & 0x7f) | (original[off] & 0x80);
-                    }
-                    break;
-                }
-                // long header: first byte bits 7,5,4; dcid len; scid len; token len; length
-                let mut r = crate::wire::Rd::new(b);
-                let mut structural: Vec<(usize, usize)> = Vec::new();
-                let ok = (|| -> Result<usize, crate::wire::Short> {
-                    let first = r.u8()?;
-                    let version = r.u32()?;
-                    let p = r.p;
-                    let dl = r.u8()? as usize;
-                    structural.push((p, 1));
-                    if (first >> 4) & 3 == 0 {
-                        // Initial: the DCID selects the Initial keys; with a damaged DCID the
-                        // receiver unmasks the header with the wrong keys and branches on bits
-                        // that come out of the (randomised) ciphertext sample
-                        structural.push((r.p, dl));
-                    }
-                    r.take(dl)?;
-                    let p = r.p;
-                    let sl = r.u8()? as usize;
-                    structural.push((p, 1));
-                    r.take(sl)?;
-                    if version == 0 || (first >> 4) & 3 == 3 {
-                        return Ok(b.len());
-                    }
-                    if (first >> 4) & 3 == 0 {
-                        let p = r.p;
-                        let tl = r.var()? as usize;
-                        structural.push((p, r.p - p));
-                        r.take(tl)?;
-                    }
-                    let p = r.p;
-                    let len = r.var()? as usize;
-                    structural.push((p, r.p - p));
-                    if (first >> 4) & 3 == 0 {
-                        // Initial: packet number bytes and the header-protection sample. An
-                        // endpoint without a connection for this packet unmasks the header and
-                        // branches on the reserved bits before authenticating anything; damage
-                        // here would make that branch depend on ciphertext bytes
-                        structural.push((r.p, 20));
-                    }
-                    Ok(r.p + len)
-                })();
-                if off < n {
-                    d.bytes[off] = (d.bytes[off] & !0xb0) | (original[off] & 0xb0);
-                }
-                for (p, l) in structural {
-                    for i in off + p..(off + p + l).min(n) {
-                        d.bytes[i] = original[i];
-                    }
-                }
-                match ok {
-                    Ok(plen) if plen > 0 => off += plen,
-                    _ => break,
-                }
-            }
-            if d.bytes.len() == original.len() && d.bytes == original && !original.is_empty() {
-                // everything we damaged was structural: damage the tail instead
-                let last = d.bytes.len() - 1;
-                d.bytes[last] ^= 0x01;
-            }
-        }
-        if false {
-            // Turning a short header into a long one would make the "version", CID lengths and
-            // length fields come out of (randomised) ciphertext bytes: the outcome would depend
-            // on rustls/ring randomness and the run would not replay. Keep the header form and
-            // damage the packet elsewhere instead.
-            d.bytes[0] &= 0x7f;
-            let last = d.bytes.len() - 1;
-            d.bytes[last] ^= 0x01;
-        }
+        // (TLS entropy is seeded per world — see cfgs::seed_tls — so ciphertext bytes are
+        // deterministic and any damage, including to header structure, replays exactly)
         if d.bytes == original {
             // two flips of the same bit cancel out (independent of the byte values)
             d.genuine = true;
@@ -765,7 +683,8 @@ impl World {
         let first = self.dgrams.len() as u32;
         let mut n = 0;
         let mut off = 0;
-        let h = crate::chooser::mix(&[self.now, inc as u64, t.size as u64, t.segment_size.map_or(0, |s| s as u64 + 1), addr_hash(&t.destination), t.ecn.map_or(0, |e| e as u64 + 1)]);
+        // (with deterministic TLS entropy even the ciphertext bytes are part of the trace)
+        let h = crate::chooser::mix(&[self.now, inc as u64, t.size as u64, t.segment_size.map_or(0, |s| s as u64 + 1), addr_hash(&t.destination), t.ecn.map_or(0, |e| e as u64 + 1), crate::util::fnv(&buf[..t.size.min(buf.len())])]);
         self.trace_item(|| format!("tx inc={} size={} seg={:?} dst={} ecn={:?}", inc, t.size, t.segment_size, t.destination, t.ecn), h);
         while off < t.size {
             let end = (off + seg).min(t.size);
